@@ -54,6 +54,7 @@ type WorldCfg struct {
 	ShuffleEnts  bool
 	LongLines    bool // lines of up to 45 stops (slice growth inside the journal)
 	DateVariety  bool // trips start on different service days
+	LateNight    bool // some trips start at or after 24:00:00 of their service day
 	RepeatDaily  bool // the same trip id (and time of day) runs on two different service days, as NYCT ids do
 }
 
@@ -84,6 +85,7 @@ func DrawWorldCfg(t *sim.T) WorldCfg {
 	c.LongLines = t.Chance(1, 10)
 	c.DateVariety = t.Chance(1, 4)
 	c.RepeatDaily = t.Chance(1, 6)
+	c.LateNight = t.Chance(1, 6)
 	return c
 }
 
@@ -179,6 +181,10 @@ func (w *World) newTrain(i int) *train {
 	}
 	// origin time in hundredths of minutes after midnight; distinct per train unless SharedKeys
 	hm := 60000 + 50*i + t.Choose(40)
+	if w.Cfg.LateNight && t.Chance(1, 2) {
+		hm = 144000 + 50*i + t.Choose(5000) // 24:00:00 .. 24:50:00+ of the service day
+		t.Probe("world-start-after-24h")
+	}
 	path := []string{"", "01R", "X", "02"}[t.Choose(4)]
 	id := fmt.Sprintf("%06d_%s..%c%s", hm, r, dir, path)
 	if w.Cfg.SharedKeys && i > 0 && t.Chance(1, 2) {
